@@ -11,13 +11,19 @@ class Interchain(Family):
     trace_cfg = "InterchainTrace.cfg"
     assumptions = [
         "whether an IBTP was accepted is taken from its receipt; an accepted IBTP is judged by the property clause it would violate; a rejected IBTP that the protocol machine would accept is drift only",
-        "scenarios: 2-3 appchains with 1-2 services registered through real governance proposals, happy validation rule (proof classes: matching hash, mismatching hash, absent), no other BitXHub registered (remote destinations are begin-failed, remote sources rejected)",
+        "scenarios: 2-3 appchains with 1-2 services (ordered, now and then one unordered) registered through real governance proposals, happy validation rule (proof classes: matching hash, mismatching hash, absent); inter-BitXHub scenarios register one or two other BitXHubs as relay chains with 1-7 validators (real secp256k1 keys) and send requests, receipts and begin-failure / rollback notices in both directions with real multi-signature proofs",
+        "a signature is logged as [signer label, what it covers]; the specification counts the distinct registered signers of THIS ibtp and status against (n-1)/3 itself; registered validator sets and hub statuses are read from the stored appchain record after every block",
+        "C02 is judged on ordered service pairs (the mirrored counter of an unordered destination records the last index by design)",
         "group children's own statuses are read from the transaction manager's stored record (GetStatus only reports the global state)",
         "observation at block boundaries through the view executor / persisted state; timeouts judged at the exact expiry height",
     ]
 
     def mc_runs(self, prop, tier):
-        return [("InterchainMC.tla", "InterchainMC_thorough.cfg" if tier == "thorough" else "InterchainMC.cfg", 12, 3000)]
+        runs = [("InterchainMC.tla", "InterchainMC_thorough.cfg" if tier == "thorough" else "InterchainMC.cfg", 12, 3000)]
+        if prop in ("C03", "C04", "C06", "C16", "C02"):
+            # the same machine between two BitXHubs: multi-signature proofs, notices, hub availability
+            runs.append(("InterchainXMC.tla", "InterchainXMC_thorough.cfg" if tier == "thorough" else "InterchainXMC.cfg", 12, 3000))
+        return runs
 
     def viol_belongs(self, inv, prop):
         return inv.startswith(prop + "_")
@@ -27,7 +33,7 @@ class Interchain(Family):
                 "mismatching or absent proofs, unregistered services, self pairs, one-to-many groups over 2-3 destinations, service and appchain freeze/activate/logout through real proposals, "
                 "empty blocks, direct calls of internal entry points, restarts; ")
         return base + {"C02": "non-trivial = trace with >= 2 accepted requests on one pair or a rejected out-of-order IBTP; distinct by event sequence",
-                       "C03": "non-trivial = trace with an IBTP whose proof does not verify or a direct HandleIBTPData call",
+                       "C03": "plus rule scenarios: an appchain validated by the real simplified-Fabric rule (trust root = an endorser certificate) whose IBTPs carry real endorsed artifacts (right one; other index / chaincode / call; broken signature; other endorser; none), master rule replaced and replaced back through real proposals with traffic while the proposal is open, chain frozen / logged out; plus inter-BitXHub scenarios: signer sets straddling the threshold (one too few, just enough, all, none), duplicate and unregistered signers, validators of another hub, signatures over another index / status / type / source, garbage, hash-mismatching and absent proofs, unregistered hubs, appchains that are no hub, frozen / logged-out hubs, replaced validator sets; non-trivial = trace with an IBTP whose proof does not verify, a multi-signature proof or a direct HandleIBTPData call",
                        "C04": "non-trivial = trace with an accepted receipt or an expiry",
                        "C05": "non-trivial = trace with a group that received a report or expired",
                        "C06": "non-trivial = trace where a request with finite timeout reaches its expiry height (with or without receipt)",
@@ -44,7 +50,7 @@ class Interchain(Family):
         if prop == "C02":
             return sum(1 for t in ib if t["typ"] == "REQ" and t["status"] == "SUCCESS") >= 2
         if prop == "C03":
-            return any(not t["proofok"] for t in ib) or any(t.get("m") == "HandleIBTPData" for t in txs)
+            return any(not t["proofok"] or t.get("ms") or t.get("art", {}).get("kind") == "fabric" for t in ib) or any(t.get("m") == "HandleIBTPData" for t in txs)
         if prop == "C04":
             return any(t["typ"] != "REQ" and t["status"] == "SUCCESS" for t in ib) or any(e["tmeta"] for e in blocks)
         if prop == "C05":
@@ -89,8 +95,12 @@ class Interchain(Family):
                 t["src"] = "model-guided (tlc -simulate)"
                 traces.append(t)
         modes = [("", n), ("group", n // 2 if prop != "C05" else n), ("timed", n // 2 if prop not in ("C04", "C06") else n)]
+        if prop == "C03":
+            modes = [("xhub", n), ("rules", n // 2), ("", n // 2), ("lifecycle", n // 4)]
+        if prop in ("C02", "C04", "C06"):
+            modes.append(("xhub", n // 2))
         if prop == "C16":
-            modes = [("lifecycle", n), ("", n // 2)]
+            modes = [("lifecycle", n), ("", n // 2), ("xhub", n // 4)]
         if prop == "C17":
             # every exported method of every registered contract (reflection) x caller role, on a live context
             modes = [("surface", 3 if q else 12), ("", n // 3)]
